@@ -200,15 +200,15 @@ Proof.
     inversion Hw; subst. inversion Hl; subst. specialize (IH l H2 H4).
     unfold nonneg in *. nra.
 Qed.
-Lemma wsum_upper hi w l : all_nonneg w -> Forall (fun x => x <= hi) l -> length w = length l ->
+Lemma wsum_upper hi w l : 0 <= hi -> all_nonneg w -> Forall (fun x => x <= hi) l ->
   qsum (map2 Qmult w l) <= hi * qsum w.
 Proof.
-  revert l; induction w as [|a w IH]; intros l Hw Hl Hlen.
+  intro Hh. revert l; induction w as [|a w IH]; intros l Hw Hl.
   - cbn. lra.
-  - destruct l as [|y l]; [discriminate|].
-    rewrite map2_cons. cbn [qsum fold_right]. fold (qsum (map2 Qmult w l)). fold (qsum w).
-    inversion Hw; subst. inversion Hl; subst. simpl in Hlen.
-    specialize (IH l H2 H4 ltac:(lia)). unfold nonneg in *. nra.
+  - inversion Hw; subst. pose proof (qsum_nonneg w H2) as Hq. destruct l as [|y l].
+    + rewrite map2_nil_r. cbn [qsum fold_right]. fold (qsum w). unfold nonneg in *. nra.
+    + rewrite map2_cons. cbn [qsum fold_right]. fold (qsum (map2 Qmult w l)). fold (qsum w).
+      inversion Hl; subst. specialize (IH l H2 H4). unfold nonneg in *. nra.
 Qed.
 Lemma wsum_scale c w l : qsum (map2 Qmult w (map (Qmult c) l)) == c * qsum (map2 Qmult w l).
 Proof.
@@ -256,9 +256,9 @@ Proof.
   intros Hw Hl. apply div_nonneg; [apply wsum_nonneg; assumption | apply qsum_nonneg; assumption].
 Qed.
 Lemma wmean_upper hi w l : 0 <= hi -> all_nonneg w -> Forall (fun x => x <= hi) l ->
-  length w = length l -> wmean w l <= hi.
+  wmean w l <= hi.
 Proof.
-  intros Hh Hw Hl Hlen. apply div_le_hi; [assumption | apply qsum_nonneg; assumption|].
+  intros Hh Hw Hl. apply div_le_hi; [assumption | apply qsum_nonneg; assumption|].
   apply wsum_upper; assumption.
 Qed.
 Lemma wmean_zero w l : Forall (fun x => x == 0) l -> wmean w l == 0.
